@@ -365,4 +365,114 @@ theorem parseMuxIndicator_mM (n : Nat) (h : u32 n = true) :
   unfold parseMuxIndicator
   simp only [hl, hlast, if_true, List.dropLast_concat, parseUintCs_toDigits n h]
 
+/-! ## the `FormatFloat` shape is accepted syntactically
+
+so `finiteFloatText` adds to `isFloatShape` only the range condition of `ParseFloat` -/
+
+theorem dropWhile_all {α} (p : α → Bool) (l : List α) (hl : l.all p = true) :
+    l.dropWhile p = [] := by
+  induction l with
+  | nil => rfl
+  | cons a l ih =>
+    simp only [List.all_cons, Bool.and_eq_true] at hl
+    simp only [List.dropWhile, hl.1, ih hl.2]
+
+/-- the shape test on the text without its sign -/
+def shapeOfBody (body : List Char) : Bool :=
+  match body.dropWhile Char.isDigit with
+  | [] => !(body.takeWhile Char.isDigit).isEmpty
+  | '.' :: fp => !(body.takeWhile Char.isDigit).isEmpty && !fp.isEmpty && fp.all Char.isDigit
+  | _ => false
+
+theorem isFloatShape_minus (r : List Char) : isFloatShape ('-' :: r) = shapeOfBody r := rfl
+
+theorem isFloatShape_other (cs : List Char) (h : ∀ r, cs ≠ '-' :: r) :
+    isFloatShape cs = shapeOfBody cs := by
+  unfold isFloatShape
+  split
+  · exact absurd rfl (h _)
+  · rfl
+
+theorem stripSign_of_digit (c : Char) (cs : List Char) (hc : c.isDigit = true) :
+    stripSign (c :: cs) = c :: cs := by
+  unfold stripSign
+  split
+  · rename_i heq
+    injection heq with h1 _
+    exact absurd h1 (isDigit_ne hc (by decide))
+  · rename_i heq
+    injection heq with h1 _
+    exact absurd h1 (isDigit_ne hc (by decide))
+  · rfl
+
+/-- the head of a float-shaped body is a digit -/
+theorem body_head_digit (body : List Char) (h : shapeOfBody body = true) :
+    ∃ c cs, body = c :: cs ∧ c.isDigit = true := by
+  unfold shapeOfBody at h
+  have hne : (body.takeWhile Char.isDigit).isEmpty = false := by
+    split at h
+    · simpa using h
+    · simp only [Bool.and_eq_true, Bool.not_eq_true'] at h
+      exact h.1.1
+    · cases h
+  cases body with
+  | nil => simp at hne
+  | cons c cs =>
+    refine ⟨c, cs, rfl, ?_⟩
+    cases hc : c.isDigit with
+    | true => rfl
+    | false => simp [List.takeWhile, hc] at hne
+
+/-- `readFloat` on a text whose (already sign-free) body has the shape -/
+theorem readFloat_of_body (cs body : List Char) (hs : stripSign cs = body)
+    (h : shapeOfBody body = true) : (readFloat cs).isSome = true := by
+  unfold shapeOfBody at h
+  unfold readFloat
+  simp only [hs]
+  split at h
+  · rename_i h0
+    simp only [h0]
+    simp only [Bool.not_eq_true'] at h
+    simp [h, readExp]
+  · rename_i fp h0
+    simp only [h0]
+    simp only [Bool.and_eq_true, Bool.not_eq_true'] at h
+    simp [h.1.1, takeWhile_all _ _ h.2, dropWhile_all _ _ h.2, readExp]
+  · cases h
+
+/-- every text of the `FormatFloat(x,'f',-1,64)` shape is syntactically a float for `ParseFloat` -/
+theorem isFloatShape_readFloat (cs : List Char) (h : isFloatShape cs = true) :
+    (readFloat cs).isSome = true := by
+  by_cases hm : ∃ r, cs = '-' :: r
+  · obtain ⟨r, rfl⟩ := hm
+    rw [isFloatShape_minus] at h
+    exact readFloat_of_body _ r rfl h
+  · have hm' : ∀ r, cs ≠ '-' :: r := fun r e => hm ⟨r, e⟩
+    rw [isFloatShape_other cs hm'] at h
+    obtain ⟨c, rest, rfl, hc⟩ := body_head_digit cs h
+    exact readFloat_of_body _ _ (stripSign_of_digit c rest hc) h
+
+/-- for a text of the `FormatFloat` shape, `finiteFloatText` is exactly "not out of range" -/
+theorem finiteFloatText_iff_range (s : String) (h : isFloatShape s.toList = true) :
+    finiteFloatText s = true ↔
+      ∃ m e, readFloat s.toList = some (m, e) ∧ floatOverflows m e = false := by
+  have hr := isFloatShape_readFloat _ h
+  unfold finiteFloatText acceptedFloatText parseDouble
+  rw [h, Bool.true_and]
+  cases hrf : readFloat s.toList with
+  | none => rw [hrf] at hr; cases hr
+  | some p =>
+    obtain ⟨m, e⟩ := p
+    simp only
+    cases hov : floatOverflows m e
+    · simp only [Bool.false_eq_true, if_false, Option.isSome_some, true_iff]
+      exact ⟨m, e, rfl, hov⟩
+    · simp only [if_true, Option.isSome_none, Bool.false_eq_true, false_iff]
+      rintro ⟨m', e', heq, hov'⟩
+      injection heq with heq
+      injection heq with h1 h2
+      subst h1 h2
+      rw [hov] at hov'
+      cases hov'
+
 end Acme.Dbc
